@@ -58,9 +58,9 @@ Stmts == {
   St("put",  PutS(<<Str("a")>>), {}, {}, <<>>),
   St("for",  For("I", I(1), I(2), NoExpr, "auto", <<Let("X", Bin("+", V("X"), V("I")))>>), {"X"}, {}, <<<<"I", TInt>>>>),
   St("t",    Let("T", Call("tab", <<I(2), V("X")>>)), {"X"}, {}, <<<<"T", TTab(TInt)>>>>),
-  \* (the element first: on a declared table without a value it fails before anything is written -- what a failing print had already
-  \*  written stays in the context's stream until the next completed print, and where that shows between the reports is not claimed)
-  St("pt",   PrintS(<<Mem(V("T"), "at", <<I(1)>>), Mem(V("T"), "count", <<>>)>>), {"T"}, {}, <<>>),
+  St("pt",   PrintS(<<Mem(V("T"), "count", <<>>), Mem(V("T"), "at", <<I(1)>>)>>), {"T"}, {}, <<>>),
+  \* a print that fails after it has written something: the text stays in the context's stream until the next completed print
+  St("pd",   PrintS(<<Str("p="), Bin("/", I(1), Bin("-", V("X"), V("X")))>>), {"X"}, {}, <<>>),
   St("exc",  Begin(<<RaiseS("E1")>>, <<[w |-> "E1", b |-> <<PrintS(<<Str("handled")>>)>>]>>), {}, {}, <<>>),
   St("if",   If(Bin(">", V("X"), I(1)), <<PrintS(<<Str("big")>>)>>, <<PrintS(<<Str("small")>>)>>), {"X"}, {}, <<>>) }
 Exprs == { Ex("ex", Bin("+", V("X"), I(1)), {"X"}, {}), Ex("ef", UCall("F", <<I(2)>>), {}, {<<"F", 1>>}), Ex("ed", Bin("/", I(1), I(0)), {}, {}) }
@@ -71,8 +71,13 @@ StmtById(id) == CHOOSE x \in Stmts : x.id = id
 (* ------------------------------ the context --------------------------- *)
 FuncSigs(Tx) == {<<Tx.funcs[i].n, Len(Tx.funcs[i].ps)>> : i \in DOMAIN Tx.funcs}
 Accepts(c, Tx) == c.needv \subseteq DOMAIN Tx.vars /\ c.needf \subseteq FuncSigs(Tx)
-Fresh(Tx) == [Tx EXCEPT !.sig = "", !.err = NoErr, !.hasrv = FALSE, !.rv = VNil, !.out = ""]
-Settled(Tx) == [Tx EXCEPT !.sig = "", !.err = NoErr, !.hasrv = FALSE, !.rv = VNil, !.out = ""]
+Fresh(Tx) == [Tx EXCEPT !.sig = "", !.err = NoErr, !.hasrv = FALSE, !.rv = VNil, !.out = "", !.fl = -1]
+Settled(Tx) == [Tx EXCEPT !.sig = "", !.err = NoErr, !.hasrv = FALSE, !.rv = VNil, !.out = "", !.fl = -1]
+\* The context writes to a stream of its own (a duplicate of standard output) that is flushed when a print / put completes.
+\* pend = what it has written and not yet flushed.  What a command shows of the context's output, and what stays pending:
+Piece(s, a, b) == IF a > b THEN "" ELSE SubSeq(s, a, b)
+Flush(pend, Tx) == IF Tx.fl >= 0 THEN [shown |-> pend \o Piece(Tx.out, 1, Tx.fl), pend |-> Piece(Tx.out, Tx.fl + 1, Len(Tx.out))]
+                   ELSE [shown |-> "", pend |-> pend \o Tx.out]
 \* compiling a statement declares its variables (a declared variable without a value reads as the null of its type) and defines its functions
 RECURSIVE Declare(_, _)
 Declare(defs, Tx) == IF defs = <<>> THEN Tx
@@ -92,16 +97,18 @@ Exp(out, rerr, perr, kind) == [out |-> out, rerr |-> rerr, perr |-> perr, kind |
 \* each command as a function of the session
 Type(q, c) ==
   IF ~Accepts(c, q.S) THEN [q EXCEPT !.last = Exp("", 0, 1, "text")]
-  ELSE LET Tx == Exec(c.s, Fresh(Compile(c, q.S))) IN
-       [q EXCEPT !.S = Settled(Tx), !.pool = Append(@, c),
-                 !.last = Exp(Tx.out \o Shown(Tx), IF Tx.sig = "err" THEN 1 ELSE 0, 0, "text")]
+  ELSE LET Tx == Exec(c.s, Fresh(Compile(c, q.S)))
+           f == Flush(q.pend, Tx) IN
+       [q EXCEPT !.S = Settled(Tx), !.pool = Append(@, c), !.pend = f.pend,
+                 !.last = Exp(f.shown \o Shown(Tx), IF Tx.sig = "err" THEN 1 ELSE 0, 0, "text")]
 
 Run(q) ==
   LET Tz == ExecList(Asts(q.pool), Fresh(q.S))
-      Tx == IF Tz.sig \in {"brk", "cont"} THEN [Tz EXCEPT !.sig = ""] ELSE Tz IN
+      Tx == IF Tz.sig \in {"brk", "cont"} THEN [Tz EXCEPT !.sig = ""] ELSE Tz
+      f == Flush(q.pend, Tx) IN
   \* the error report of `run` ends its line: an empty line remains once the report is removed
-  [q EXCEPT !.S = Settled(Tx),
-            !.last = Exp(Tx.out \o (IF Tx.sig = "err" THEN "\n" ELSE Shown(Tx)), IF Tx.sig = "err" THEN 1 ELSE 0, 0, "text")]
+  [q EXCEPT !.S = Settled(Tx), !.pend = f.pend,
+            !.last = Exp(f.shown \o (IF Tx.sig = "err" THEN "\n" ELSE Shown(Tx)), IF Tx.sig = "err" THEN 1 ELSE 0, 0, "text")]
 
 Clear(q) == [q EXCEPT !.S = State0, !.pool = <<>>, !.last = Exp("", 0, 0, "text")]
 List(q) == [q EXCEPT !.last = Exp("", 0, 0, "pool")]
@@ -109,8 +116,9 @@ Save(q, f) == [q EXCEPT !.files[f] = [saved |-> TRUE, prog |-> q.pool], !.last =
 Load(q, f) ==
   IF ~q.files[f].saved THEN [q EXCEPT !.last = Exp("\n", 1, 0, "text")]
   ELSE LET r == CompileAll(q.files[f].prog, q.S) IN
-       IF r.ok THEN [q EXCEPT !.S = r.Tx, !.pool = @ \o q.files[f].prog, !.last = Exp("", 0, 0, "file")]
-       ELSE [q EXCEPT !.unk = TRUE, !.last = Exp("", 0, 1, "any")]
+       \* the echo is written to the context's stream and flushed: what was pending comes out in front of it
+       IF r.ok THEN [q EXCEPT !.S = r.Tx, !.pool = @ \o q.files[f].prog, !.pend = "", !.last = Exp(q.pend, 0, 0, "file")]
+       ELSE [q EXCEPT !.unk = TRUE, !.pend = "", !.last = Exp("", 0, 1, "any")]
 Evaluate(q, c) ==
   IF ~Accepts(c, q.S) THEN [q EXCEPT !.last = Exp("\n", 1, 0, "text")]
   ELSE LET r == Eval(c.e, Fresh(q.S)) IN
@@ -122,13 +130,14 @@ RECURSIVE Fold(_, _)
 Fold(q, cs) == IF cs = <<>> THEN q ELSE Fold(Post(q, Head(cs)), Tail(cs))
 
 Ctx0 == SetVar(State0, "$ARG", VTab(TStr, <<>>))
-M0 == [S |-> Ctx0, pool |-> <<>>, files |-> [f \in Files |-> [saved |-> FALSE, prog |-> <<>>]], unk |-> FALSE, last |-> Exp("", 0, 0, "text")]
+M0 == [S |-> Ctx0, pool |-> <<>>, files |-> [f \in Files |-> [saved |-> FALSE, prog |-> <<>>]], unk |-> FALSE, pend |-> "", last |-> Exp("", 0, 0, "text")]
 Init == m = M0 /\ hist = <<>>
 Next == ~m.unk /\ \E c \in CmdAlphabet : m' = Post(m, c) /\ hist' = Append(hist, c)
 Spec == Init /\ [][Next]_cvars
 
 (* ------------------------------ properties ---------------------------- *)
 \* every statement of the pool (and of every file) is one the compiler accepted; the context is at rest between commands
+\* nothing stays pending after a command whose last print completed
 TypeOK == /\ \A i \in DOMAIN m.pool : m.pool[i] \in Stmts
           /\ \A f \in Files : \A i \in DOMAIN m.files[f].prog : m.files[f].prog[i] \in Stmts
           /\ m.S.sig = "" /\ m.S.out = ""
